@@ -257,7 +257,152 @@ def check_meta(case, rec):
     rec.nontrivial(cond_pos.shape[1] >= 3 and grid.shape[1] >= 2)
 
 
+# ---------------------------------------------------------------------------
+# histories: in-place model changes + documented refresh, new conditions, fitted variograms
+
+
+def _spec_from_model(spec, m):
+    """Spec describing the model as it is now (after in-place changes or a variogram fit)."""
+    s2 = dict(spec)
+    s2["var"] = float(m.var)
+    s2["len_scale"] = float(m.len_scale)
+    s2["nugget"] = float(m.nugget)
+    s2["anis"] = [float(a) for a in m.anis]
+    s2["angles"] = [float(a) for a in m.angles]
+    s2["rescale"] = float(m.rescale)
+    s2["opt"] = {k: float(getattr(m, k)) for k in m.opt_arg}
+    return s2
+
+
+@st.composite
+def gen_khist(draw, tier="quick"):
+    case = draw(kc.configs(tier, max_cond=10, geo_kinds=("euclid", "euclid", "temporal"),
+                           variants=["simple", "ordinary", "universal", "detrended", "base"]))
+    spec, cfg = case["spec"], case["cfg"]
+    cfg["norm"] = "None" if cfg["variant"] != "detrended" else cfg.get("norm")
+    if cfg.get("norm") is None:
+        cfg.pop("norm", None)
+    cfg["n_ext"] = 0
+    fdim = kc.field_dim(spec)
+    ls = spec["len_scale"] / (spec.get("rescale") or 1.0)
+    case["pos"] = draw(gens.point_cloud(fdim, n_min=2, n_max=4, kinds=("cloud",), scale=max(1.0, ls)))
+    case["cond_val"] = [0.3 * i if isinstance(v, str) or v != v else v for i, v in enumerate(case["cond_val"])]
+    n = len(case["cond_val"])
+    ops = []
+    kinds = ["anis", "angles", "len_scale", "var", "new_values", "new_positions", "refresh_only", "call"]
+    for _ in range(draw(st.integers(1, 5))):
+        k = draw(st.sampled_from(kinds))
+        op = {"op": k}
+        if k in ("anis", "len_scale", "var"):
+            op["factor"] = draw(st.one_of(logfloat(1.3, 3.0), logfloat(0.3, 0.8)))
+            op["idx"] = draw(st.integers(0, 2))
+        elif k == "angles":
+            op["delta"] = draw(st.floats(0.2, 1.3))
+            op["idx"] = draw(st.integers(0, 2))
+        elif k == "new_values":
+            op["vals"] = draw(st.lists(st.floats(-2.0, 3.0), min_size=n, max_size=n))
+        elif k == "new_positions":
+            op["shift"] = draw(st.lists(st.floats(-0.4, 0.4), min_size=fdim, max_size=fdim))
+        ops.append(op)
+    ops.append({"op": "call"})
+    case["ops"] = ops
+    case["fit"] = draw(st.sampled_from([False, False, True]))
+    if case["fit"] and fdim > 1 and all(a == 1.0 for a in spec["anis"]) and not spec.get("temporal"):
+        # an anisotropic start model makes the fit directional (it then changes the anisotropy)
+        spec["anis"] = [draw(st.sampled_from([0.4, 2.5])) for _ in spec["anis"]]
+    return case
+
+
+def check_khist(case, rec):
+    spec, cfg = dict(case["spec"]), dict(case["cfg"])
+    fdim = kc.field_dim(spec)
+    tags = dict(gens.spec_tags(spec), variant=cfg["variant"], geo=cfg["geo"])
+    rec.label(cfg["variant"], cfg["geo"])
+    cond_pos = np.array(case["cond_pos"], dtype=float).reshape(fdim, -1)
+    cond_val = np.array(case["cond_val"], dtype=float)
+    pos = np.array(case["pos"], dtype=float).reshape(fdim, -1)
+    changed = 0
+    with quiet():
+        model = lib(build_model, spec, _tags=tags)
+        cc = dict(case, spec=spec, cfg=cfg)
+        if case["fit"] and cond_pos.shape[1] >= 6 and cfg["variant"] in ("simple", "ordinary"):
+            # variogram fitted inside the constructor: the kriging system has to use the *fitted* model
+            try:
+                k = kc.build_krige(cc, model=model)
+                k.set_condition(cond_pos.copy(), cond_val.copy(), fit_variogram=True)
+            except (ValueError, RuntimeError):
+                rec.exclude("variogram_fit_failed")
+                return
+            rec.label("fit_variogram")
+            changed += 1
+            # look at the result right after the fit, before any refresh can repair a stale system
+            case = dict(case, ops=[{"op": "call"}] + list(case["ops"]))
+        else:
+            k = lib(kc.build_krige, cc, model=model, _what="Krige constructor", _tags=tags)
+        for i, op in enumerate(case["ops"]):
+            o = op["op"]
+            where = f"op {i} {op}"
+            try:
+                m = k.model
+                if o == "anis" and fdim > 1:
+                    a = np.array(m.anis)
+                    a[op["idx"] % len(a)] *= op["factor"]
+                    m.anis = a
+                    k.set_condition()
+                    changed += 1
+                elif o == "angles" and fdim > 1 and not spec.get("temporal"):
+                    a = np.array(m.angles)
+                    a[op["idx"] % len(a)] += op["delta"]
+                    m.angles = a
+                    k.set_condition()
+                    changed += 1
+                elif o == "len_scale":
+                    m.len_scale = m.len_scale * op["factor"]
+                    k.set_condition()
+                    changed += 1
+                elif o == "var":
+                    m.var = m.var * op["factor"]
+                    k.set_condition()
+                    changed += 1
+                elif o == "new_values":
+                    cond_val = np.array(op["vals"], dtype=float)
+                    k.set_condition(cond_pos.copy(), cond_val.copy())
+                    changed += 1
+                elif o == "new_positions":
+                    cond_pos = cond_pos + np.array(op["shift"])[:, None]
+                    k.set_condition(cond_pos.copy(), cond_val.copy())
+                    changed += 1
+                elif o == "refresh_only":
+                    k.set_condition()
+                elif o == "call":
+                    cur = kc.spec_from_model(spec, k.model)
+                    c2 = dict(case, spec=cur, cfg=cfg, cond_pos=cond_pos.tolist(), cond_val=cond_val.tolist())
+                    ref = kc.oracle(c2, pos, k.model)
+                    if not np.isfinite(ref["cond"]) or ref["cond"] > 1e9 or not np.all(np.isfinite(ref["field"])):
+                        rec.exclude("cond>1e9")
+                        return
+                    f, v = k(pos.copy())
+                    sc = max(1.0, float(np.max(np.abs(cond_val))), float(np.max(np.abs(ref["field"]))))
+                    t = kc.tol(c2, ref["cond"], sc) * 10
+                    tv = kc.tol(c2, ref["cond"], cur["var"] + cur["nugget"]) * 10
+                    ef = float(np.max(np.abs(f - ref["field"])))
+                    ev = float(np.max(np.abs(v - ref["var"])))
+                    rec.discrepancy("history_estimate", ef, t)
+                    require(
+                        ef <= t and ev <= tv,
+                        f"{where}: after the history the kriging result differs from a direct solve with the current model, data and "
+                        f"positions (estimate {ef:.3g}, variance {ev:.3g}; tol {t:.3g})",
+                        dict(tags, kind="stale_after_history"),
+                    )
+            except Violation:
+                raise
+            except Exception as e:  # noqa: BLE001
+                raise Violation(f"{where}: raised {type(e).__name__}: {e}", dict(tags, kind="exception"))
+    rec.nontrivial(changed >= 1 and cond_pos.shape[1] >= 3)
+
+
 SUBS = [
-    Sub("solve", gen_solve, check_solve, quick=1600, thorough=40000, shards_quick=10, shards_thorough=12),
-    Sub("meta", gen_meta, check_meta, quick=400, thorough=8000, shards_quick=6, shards_thorough=4),
+    Sub("solve", gen_solve, check_solve, quick=1600, thorough=40000, shards_quick=8, shards_thorough=12),
+    Sub("meta", gen_meta, check_meta, quick=400, thorough=8000, shards_quick=4, shards_thorough=4),
+    Sub("history", gen_khist, check_khist, quick=400, thorough=8000, shards_quick=4, shards_thorough=4),
 ]
